@@ -174,6 +174,24 @@ DynCls = type("DynErr", (Exception,), {"__module__": "no.such.module"})
 DynBase = type("DynBaseErr", (BaseException,), {"__module__": "mon.excser"})  # name not bound in module
 DynNoModule = type("NoModuleError", (Exception,), {})
 DynNoModule.__module__ = None  # type: ignore[assignment]  # a class built at run time that claims no module at all
+# classes built at run time whose module name is empty / a relative name (nothing importable goes by such a name)
+DynEmptyModule = type("EmptyModuleError", (Exception,), {"__module__": ""})
+DynDotModule = type("DotModuleError", (Exception,), {"__module__": ".hidden"})
+DynDotsModule = type("DotsModuleError", (LookupError,), {"__module__": "..pkg.errors"})
+
+
+def _plant_main_classes() -> Any:
+    """Error classes of the script that is running (`__main__`): module-level and nested ones, importable there."""
+    main = sys.modules["__main__"]
+    top = type("VerifScriptError", (Exception,), {"__module__": "__main__"})
+    inner = type("Inner", (ValueError,), {"__module__": "__main__", "__qualname__": "VerifScriptHolder.Inner"})
+    holder = type("VerifScriptHolder", (), {"__module__": "__main__", "Inner": inner})
+    main.VerifScriptError = top  # type: ignore[attr-defined]
+    main.VerifScriptHolder = holder  # type: ignore[attr-defined]
+    return top, inner
+
+
+MainErr, MainInnerErr = _plant_main_classes()
 from mon import shadow_errors as _shadow  # noqa: E402
 
 POOL: Dict[str, Any] = {
@@ -193,6 +211,8 @@ POOL: Dict[str, Any] = {
     "EqErr": EqErr, "EqRaises": EqRaises, "Rebound": Rebound,
     "ShadowConnectionError": _shadow.ConnectionError, "ShadowTimeoutError": _shadow.TimeoutError, "ShadowKeyError": _shadow.KeyError,
     "DynNoModule": DynNoModule, "MixedQuota": MixedQuota,
+    "DynEmptyModule": DynEmptyModule, "DynDotModule": DynDotModule, "DynDotsModule": DynDotsModule,
+    "MainErr": MainErr, "MainInnerErr": MainInnerErr,
 }
 FALSY_POOL = {"Falsy": Falsy, "LenZero": LenZero}
 POOL_ALL = dict(POOL)
@@ -885,6 +905,9 @@ CATALOGUE: List[Tuple[Optional[str], str]] = [
     ("trapmod", "wrapped_fn"), ("trapmod", "WrappedCls"),
     ("builtins", "ValueError "), (" builtins", "KeyError"), ("os", "\tsystem"), ("builtins", " ValueError"), ("trapmod ", "fn"),
     ("trapmod", "fn\n"), ("builtins", "Value Error"),
+    # the claimed *module* is not a loaded module but "<loaded module>.<attribute path>": nothing to resolve there
+    ("trapmod.Holder", "Err"), ("trapmod.Holder", "fn"), ("builtins.KeyError", "__base__"), ("taskiq.serialization.sys", "exit"),
+    ("trapmod.settings", "fn"), ("trapmod.Holder.Inner", "__init__"), ("mon.excser.Outer", "Inner"),
 ]
 
 class _Validating(Exception):
@@ -1251,6 +1274,8 @@ class C20(Check):
                     continue
                 module, name = CATALOGUE[k]
             nest = rng.choice([0, 0, 1, 2, 3, 4]) if tier == "thorough" else rng.choice([0, 0, 1, 2])
+            if rng.random() < 0.03:
+                nest = rng.choice([33, 40, 64, 120])  # a long cause / context chain
             entries = ["exception_to_python", "model_validate", "model_validate_json"]
             if module and "." not in name and name and rng.random() < 0.4:
                 entries = entries + ["wrapper", "wrapper_validate", "wrapper_pickle"]
